@@ -452,6 +452,21 @@ def check_pair(ctx, problem, cfg, kind, level=None, label='random'):
     if ra['ok']:
         correspondence(ctx, fail is None, problem, cfg_a, ra['results'],
                        detail, 'A')
+        if flat and ctx.driver_ok:
+            diff = U.model_flat_setup(ctx, problem, cfg_a, ra['nodes'])
+            ctx.traces += 1
+            if diff is not None:
+                ctx.disagreements_checked += 1
+                if fail is None:
+                    ctx.violation(
+                        'C17/correspondence/mapSetup/%s' % diff['field'],
+                        'correspondence mapSetup / flatRootGenes ~ the '
+                        'flatten block of _run_mapping no longer checks (%s)'
+                        % diff['field'],
+                        dict(detail, diff=diff,
+                             broken='correspondence CTM.LevelLoop.mapSetup ~ '
+                                    '_run_mapping flatten block'),
+                        found_input=False)
     if rb['ok']:
         pb = problem if tree_b is None else dict(problem, tree=tree_b)
         correspondence(ctx, fail is None, pb, cfg_b, rb['results'], detail,
